@@ -77,9 +77,13 @@ def cnt(p, lo, hi):
 
 
 def ite(c, a, b):
+    """if-then-else; a branch may be given as a zero-argument lambda to delay its evaluation
+    (needed natively when the other branch guards a division)"""
     if _sym(c):
-        return ops.ite(c, a, b)
-    return a if c else b
+        return ops.ite(c, a() if callable(a) else a, b() if callable(b) else b)
+    if c:
+        return a() if callable(a) else a
+    return b() if callable(b) else b
 
 
 def implies(a, b):
